@@ -2,6 +2,7 @@
 #![allow(unused_imports, unused_variables, dead_code, unused_mut)]
 use vstd::prelude::*;
 use std::ops::{RangeTo, RangeFrom};
+use std::sync::Arc;
 use vstd::std_specs::iter::IteratorSpec;
 verus! {
 
@@ -526,6 +527,147 @@ impl Splitter {
         proof {
             assert(flat_blocks(batch.blocks@) =~= flat0);
         }
+//@end
+}
+
+// =====================================================================================================
+// Buffer: the flush buffer hands the splitter page-aligned, back-to-back entries no larger than max_entry_size
+// =====================================================================================================
+pub struct Metrics { pub m: u8 }
+//@item foyer-storage/src/engine/block/buffer.rs :: struct Buffer rules=strip-attrs,pub-fields
+//@item foyer-storage/src/serde.rs :: struct KvInfo rules=strip-attrs
+//@item foyer-storage/src/compress.rs :: enum Compression rules=derive-structural
+//@item foyer-storage/src/engine/block/serde.rs :: struct EntryHeader rules=derive-clone-copy
+
+pub open spec fn buf_total(infos: Seq<BufferEntryInfo>) -> int
+    decreases infos.len()
+{
+    if infos.len() == 0 { 0 } else { buf_total(infos.drop_last()) + align_up_spec(infos.last().len as int) }
+}
+pub open spec fn buf_chain(infos: Seq<BufferEntryInfo>) -> bool {
+    forall|i: int| 0 <= i < infos.len() ==> (#[trigger] infos[i]).offset as int == buf_total(infos.subrange(0, i))
+}
+pub proof fn lemma_align_fits(len: int, m: int)
+    requires 0 <= len <= m, m % 4096 == 0,
+    ensures align_up_spec(len) <= m,
+{
+    let q = (len + 4095) / 4096; let k = m / 4096;
+    assert(m == k * 4096) by (nonlinear_arith) requires k == m / 4096, m % 4096 == 0;
+    assert(q <= k) by (nonlinear_arith) requires q == (len + 4095) / 4096, len <= k * 4096, len >= 0;
+    assert(q * 4096 <= k * 4096) by (nonlinear_arith) requires q <= k;
+}
+pub proof fn lemma_buf_push(infos: Seq<BufferEntryInfo>, x: BufferEntryInfo)
+    requires buf_chain(infos), x.offset as int == buf_total(infos),
+    ensures buf_chain(infos.push(x)), buf_total(infos.push(x)) == buf_total(infos) + align_up_spec(x.len as int),
+{
+    let p = infos.push(x);
+    assert(p.drop_last() =~= infos);
+    assert forall|i: int| 0 <= i < p.len() implies (#[trigger] p[i]).offset as int == buf_total(p.subrange(0, i)) by {
+        if i < infos.len() { assert(p.subrange(0, i) =~= infos.subrange(0, i)); } else { assert(p.subrange(0, i) =~= infos); }
+    }
+}
+/// writable tail of the flush buffer (`&mut self.bytes[offset..]`): only its length matters here
+pub struct TailT { pub n: usize }
+impl TailT { pub fn len(&self) -> (r: usize) ensures r == self.n { self.n } }
+#[verifier::external_body]
+pub fn verif_tail_mut(bytes: &mut IoSliceMut, offset: usize) -> (r: TailT)
+    requires offset <= old(bytes).n, // @label tail_starts_inside_the_buffer
+    ensures r.n == old(bytes).n - offset, final(bytes).n == old(bytes).n,
+{ unimplemented!() }
+/// `buf[..slice.len()].copy_from_slice(slice)`
+#[verifier::external_body]
+pub fn verif_copy(buf: &mut TailT, slice: &[u8])
+    requires slice@.len() <= old(buf).n, // @label raw_entry_copied_inside_the_buffer
+    ensures final(buf).n == old(buf).n,
+{ }
+pub uninterp spec fn checksum_of_range(a: int, b: int) -> u64;
+/// `Checksummer::checksum64(&buf[a..b])`
+#[verifier::external_body]
+pub fn verif_checksum(buf: &TailT, a: usize, b: usize) -> (r: u64)
+    requires a <= b <= buf.n, // @label checksum_range_inside_the_buffer
+    ensures r == checksum_of_range(a as int, b as int),
+{ unimplemented!() }
+/// `header.write(&mut buf[..n])` (byte layout: Kani unit codec)
+#[verifier::external_body]
+pub fn verif_header_write(h: &EntryHeader, buf: &mut TailT, n: usize)
+    requires n == 36, n <= old(buf).n, // @label header_written_at_the_start_of_the_entry
+    ensures final(buf).n == old(buf).n,
+{ }
+
+impl EntryHeader {
+//@fn foyer-storage/src/engine/block/serde.rs :: impl~^impl EntryHeader$/fn serialized_len ret=r
+//@spec
+        ensures r == 36, // @label header_is_36_bytes
+//@end
+}
+
+impl Buffer {
+    pub open spec fn wf(&self) -> bool {
+        &&& self.bytes.n % 4096 == 0 && self.written % 4096 == 0 && self.written <= self.bytes.n
+        &&& self.max_entry_size <= u32::MAX
+        &&& buf_chain(self.entry_infos@) && buf_total(self.entry_infos@) == self.written
+        &&& infos_ok(self.entry_infos@, self.max_entry_size as int)
+    }
+
+//@fn foyer-storage/src/engine/block/buffer.rs :: impl~^impl Buffer$/fn push_slice rules=drop-tracing ret=r sub=@let buf = &mut self\.bytes\[offset\.\.\];@let mut buf = verif_tail_mut(&mut self.bytes, offset);@ sub=@buf\[\.\.slice\.len\(\)\]\.copy_from_slice\(slice\);@verif_copy(&mut buf, slice);@
+//@spec
+        requires old(self).wf(), slice@.len() > 0, slice@.len() + 4095 <= usize::MAX,
+        ensures
+            final(self).wf(), // @label buffer_invariant_preserved
+            final(self).bytes == old(self).bytes && final(self).max_entry_size == old(self).max_entry_size,
+            r == (align_up_spec(slice@.len() as int) <= old(self).max_entry_size && align_up_spec(slice@.len() as int) <= old(self).bytes.n - old(self).written), // @label accepted_iff_it_fits_whole
+            !r ==> final(self).written == old(self).written && final(self).entry_infos@ == old(self).entry_infos@, // @label refused_entry_leaves_no_trace
+            r ==> final(self).written == old(self).written + align_up_spec(slice@.len() as int)
+                && final(self).entry_infos@ == old(self).entry_infos@.push(BufferEntryInfo { hash: hash, sequence: sequence, offset: old(self).written, len: slice@.len() as usize }), // @label accepted_entry_recorded_at_the_old_write_position
+//@before /let info = BufferEntryInfo \{/
+        proof { lemma_align_up(slice@.len() as int); lemma_buf_push(self.entry_infos@, BufferEntryInfo { hash: hash, sequence: sequence, offset: offset, len: len }); }
+//@end
+
+// ---- Buffer::push, header part: lengths, checksum over exactly key+value bytes, compression tag
+//@region foyer-storage/src/engine/block/buffer.rs :: impl~^impl Buffer$/fn push name=push_header start=/let checksum = Checksummer::checksum64\(/ end=/header\.write\(&mut buf\[\.\.EntryHeader::serialized_len\(\)\]\);/ sub=@Checksummer::checksum64\(\s*&buf\[EntryHeader::serialized_len\(\)\s*\.\.EntryHeader::serialized_len\(\) \+ info\.key_len as usize \+ info\.value_len as usize\],\s*\)@verif_checksum(&buf, EntryHeader::serialized_len(), EntryHeader::serialized_len() + info.key_len as usize + info.value_len as usize)@ sub=@header\.write\(&mut buf\[\.\.EntryHeader::serialized_len\(\)\]\);@verif_header_write(&header, buf, EntryHeader::serialized_len());@ sub=@info\.key_len as _@info.key_len as u32@ sub=@info\.value_len as _@info.value_len as u32@
+//@head
+    fn push_header(buf: &mut TailT, info: &KvInfo, hash: u64, sequence: Sequence, compression: Compression) -> (h: EntryHeader)
+        requires 36 + info.key_len + info.value_len <= old(buf).n, info.key_len <= u32::MAX, info.value_len <= u32::MAX,
+        ensures
+            h.key_len == info.key_len && h.value_len == info.value_len, // @label header_records_the_serialized_lengths
+            h.checksum == checksum_of_range(36, 36 + info.key_len + info.value_len), // @label checksum_covers_exactly_value_and_key_bytes
+            h.hash == hash && h.sequence == sequence && h.compression == compression, // @label header_records_hash_sequence_compression
+//@tail
+        header
+//@end
+
+// ---- Buffer::push, commit part: refuse the entry as a whole if it exceeds the per-entry limit, else record it
+//@region foyer-storage/src/engine/block/buffer.rs :: impl~^impl Buffer$/fn push name=push_commit start=/let len = EntryHeader::serialized_len\(\) \+ info\.key_len as usize \+ info\.value_len as usize;/ end=/self\.written \+= aligned;/ rules=drop-tracing
+//@head
+    fn push_commit(&mut self, offset: usize, info: KvInfo, hash: u64, sequence: Sequence) -> (r: bool)
+        requires
+            old(self).wf(), offset == old(self).written,
+            // the serializer wrote header + value + key inside the remaining buffer
+            36 + info.key_len + info.value_len <= old(self).bytes.n - old(self).written,
+        ensures
+            final(self).wf(), // @label buffer_invariant_preserved
+            final(self).bytes == old(self).bytes && final(self).max_entry_size == old(self).max_entry_size,
+            r == (align_up_spec(36 + info.key_len + info.value_len) <= old(self).max_entry_size), // @label oversize_entry_is_refused_whole
+            !r ==> final(self).written == old(self).written && final(self).entry_infos@ == old(self).entry_infos@, // @label refused_entry_leaves_no_trace
+            r ==> final(self).written == old(self).written + align_up_spec(36 + info.key_len + info.value_len)
+                && final(self).entry_infos@ == old(self).entry_infos@.push(BufferEntryInfo { hash: hash, sequence: sequence, offset: old(self).written, len: (36 + info.key_len + info.value_len) as usize }), // @label recorded_length_is_header_plus_key_plus_value
+//@before /let info = BufferEntryInfo \{/
+        proof {
+            lemma_align_up(len as int);
+            lemma_align_fits(len as int, self.bytes.n - self.written);
+            lemma_buf_push(self.entry_infos@, BufferEntryInfo { hash: hash, sequence: sequence, offset: offset, len: len });
+        }
+//@tail
+        true
+//@end
+
+//@fn foyer-storage/src/engine/block/buffer.rs :: impl~^impl Buffer$/fn finish rules=drop-tracing ret=r
+//@spec
+        requires self.wf(),
+        ensures
+            r.0 == self.bytes && r.1@ == self.entry_infos@,
+            // what Splitter::split requires of a batch
+            infos_ok(r.1@, self.max_entry_size as int) && buf_chain(r.1@) && buf_total(r.1@) <= r.0.n, // @label finished_buffer_meets_the_splitters_precondition
 //@end
 }
 
